@@ -1314,3 +1314,57 @@ pub(crate) fn c_eq_array<const N: usize, const M: usize>() {
     { let am: &mut [u8; M] = &mut arr2; check!((a == am) == same, "[C13] buffer == &mut [U; M] differs from equality of the element sequences"); }
     nd::reached();
 }
+
+// ----- provided iterator methods that an impl may override: nth / nth_back / count / last (C08) ----------------
+
+fn model_nth(m: &mut Seq, k: usize) -> Option<u8> {
+    if k < m.len { let r = m.a[k]; let keep = m.len - k - 1; m.keep_last(keep); Some(r) } else { m.keep_first(0); None }
+}
+fn model_nth_back(m: &mut Seq, k: usize) -> Option<u8> {
+    if k < m.len { let r = m.a[m.len - 1 - k]; let keep = m.len - k - 1; m.keep_first(keep); Some(r) } else { m.keep_first(0); None }
+}
+
+pub(crate) fn c_iter_nth<const N: usize>() {
+    let mut b = any_tokbuf::<N>();
+    let old = ids_of(&b);
+    let (lo, hi) = (any_bound(), any_bound());
+    let rng = bounds_to_range(lo, hi, old.len);
+    nd::assume(rng.is_some());
+    let (s, e) = rng.unwrap();
+    let k = nd::usize_in(0, N + 1); let j = nd::usize_in(0, N + 1);
+    let which = nd::usize_in(0, 3);
+    let mut m = sub_seq(&old, s, e);
+    if which == 0 {
+        let mut it = b.range((lo, hi));
+        let r = it.nth(k).map(|t| t.id); let mr = model_nth(&mut m, k);
+        check!(r == mr && it.len() == m.len, "[C08] range(): nth(k) does not skip k elements and yield the next one, or len() is wrong afterwards");
+        let r = it.nth_back(j).map(|t| t.id); let mr = model_nth_back(&mut m, j);
+        check!(r == mr && it.len() == m.len, "[C08] range(): nth_back(k) does not skip k elements from the back and yield the next one, or len() is wrong afterwards");
+        let n = it.clone().count(); let l = it.clone().last().map(|t| t.id);
+        check!(n == m.len && l == (if m.len > 0 { Some(m.a[m.len - 1]) } else { None }), "[C08] range(): count() / last() disagree with the elements not yet produced");
+    } else if which == 1 {
+        let mut it = b.range_mut((lo, hi));
+        let r = it.nth(k).map(|t| t.id); let mr = model_nth(&mut m, k);
+        check!(r == mr && it.len() == m.len, "[C08] range_mut(): nth(k) does not skip k elements and yield the next one, or len() is wrong afterwards");
+        let r = it.nth_back(j).map(|t| t.id); let mr = model_nth_back(&mut m, j);
+        check!(r == mr && it.len() == m.len, "[C08] range_mut(): nth_back(k) does not skip k elements from the back and yield the next one, or len() is wrong afterwards");
+    } else if which == 2 {
+        nd::assume(s == 0 && e == old.len);
+        let mut it = (&b).into_iter();
+        let r = it.nth(k).map(|t| t.id); let mr = model_nth(&mut m, k);
+        check!(r == mr && it.len() == m.len, "[C08] (&buf).into_iter(): nth(k) wrong, or len() wrong afterwards");
+        let r = it.next_back().map(|t| t.id); let mr = m.pop_back();
+        check!(r == mr && it.len() == m.len, "[C08] (&buf).into_iter(): next_back() after nth() wrong");
+    } else {
+        let mut d = b.drain((lo, hi));
+        let r = d.nth(k); let mr = model_nth(&mut m, k);
+        check!(opt_id(&r) == mr && d.len() == m.len, "[C08,C09] drain: nth(k) does not skip (and destroy) k elements and yield the next one, or len() is wrong afterwards");
+        core::mem::forget(r);
+        let r = d.nth_back(j); let mr = model_nth_back(&mut m, j);
+        check!(opt_id(&r) == mr && d.len() == m.len, "[C08,C09] drain: nth_back(k) wrong, or len() wrong afterwards");
+        core::mem::forget(r);
+        core::mem::forget(d);
+    }
+    nd::reached();
+    core::mem::forget(b);
+}
